@@ -160,6 +160,29 @@ def jobs_after_prepare(A: Analysis, col: Collector, rule: str):
         col.ok(rule, "each state's task is attrs.evolve(<node task>, **resolved): only split/lazy fields change", A.loc(ev[0]))
     else:
         col.fail(rule, st.qualname, "split-task-not-evolved-from-node-task", "per-state tasks are not built by evolving the node's task with the resolved values only", A.loc(lp))
+    # the element of a split field is delivered whenever the state's value table has the key: the decision
+    # is a membership test / KeyError, never a test on the element itself (None, 0, '' and [] are elements)
+    vals_var = None
+    if isinstance(lp.target, ast.Tuple):
+        for e, a in zip(lp.target.elts, lp.iter.args):
+            if norm(a).endswith("state.states_val") and isinstance(e, ast.Name):
+                vals_var = e.id
+    if vals_var is None:
+        raise AnalysisError("C01: the per-state value table of _split_task's zip loop was not recognised")
+    reads = [n for n in ast.walk(lp) if (isinstance(n, ast.Subscript) and isinstance(n.value, ast.Name) and n.value.id == vals_var and isinstance(n.ctx, ast.Load)) or (isinstance(n, ast.Call) and isinstance(n.func, ast.Attribute) and n.func.attr in ("get", "pop") and isinstance(n.func.value, ast.Name) and n.func.value.id == vals_var)]
+    A.anchor("read of the per-state value table in _split_task", reads)
+    for r in reads:
+        stmt = next(p_ for p_ in parents(r) if isinstance(p_, ast.stmt))
+        elem_names = {t.id for t in getattr(stmt, "targets", []) if isinstance(t, ast.Name)} if isinstance(stmt, ast.Assign) else set()
+        tested = [i for i in ast.walk(lp) if isinstance(i, ast.If) and any(isinstance(k, ast.Name) and k.id in elem_names for k in ast.walk(i.test))]
+        tested += [i for i in ast.walk(lp) if isinstance(i, (ast.If, ast.IfExp)) and any(k is r for k in ast.walk(i.test))]
+        is_get = isinstance(r, ast.Call)
+        if tested:
+            col.fail(rule, st.qualname, "element-delivery-decided-by-its-value", f"`{norm(tested[0].test, 50)}` decides from the element read by `{norm(r)}` whether it is delivered to the job: an element that is None (or otherwise falsy) is not delivered, and the job keeps the whole list that is split over", A.loc(tested[0]))
+        elif is_get and not (isinstance(stmt, ast.Assign) and isinstance(stmt.targets[0], ast.Subscript)):
+            col.fail(rule, st.qualname, "element-read-with-default", f"`{norm(r)}` cannot tell a missing key from an element that equals the default", A.loc(r))
+        else:
+            col.ok(rule, f"`{norm(stmt, 50)}`: the element is delivered whenever the key is present (KeyError / membership decides)", A.loc(r))
     # the value of a split field comes from vals[state_key]
     keys = [n for n in walk_own(st.node) if isinstance(n, ast.Assign) and isinstance(n.value, ast.JoinedStr) and "inpt_name" in norm(n.value)]
     if keys and norm(keys[0].value) == "f'{self.node.name}.{inpt_name}'":
@@ -213,14 +236,70 @@ def check_c01(A: Analysis, col: Collector):
 # --------------------------------------------------------------------------- #
 
 
+def depth_step_rule(A: Analysis, col: Collector, rule: str):
+    """recursive descents over nested containers move their depth counter by exactly one per level: either
+    on entry (`d -= 1`) or in the argument of the recursive call (`d - 1` / `d + 1`), never both, never
+    neither.  The job count (input_shape) and the element extraction (flatten) agree only then."""
+    n_fn = 0
+    for f in [f for f in A.repo.functions.values() if f.module.name == "pydra.engine.state" and f.cls is None]:
+        rec = [c for c in A.calls(f) if isinstance(c.func, ast.Name) and c.func.id == f.name]
+        if not rec:
+            continue
+        params = [p_.arg for p_ in f.params()]
+        for i, pname in enumerate(params):
+            entry = [n for n in f.node.body if isinstance(n, ast.AugAssign) and isinstance(n.target, ast.Name) and n.target.id == pname and isinstance(n.op, (ast.Sub, ast.Add)) and isinstance(n.value, ast.Constant) and n.value.value == 1]
+            per_call = []
+            for c in rec:
+                a = c.args[i] if i < len(c.args) else kwarg(c, pname)
+                stepped = isinstance(a, ast.BinOp) and isinstance(a.op, (ast.Sub, ast.Add)) and isinstance(a.left, ast.Name) and a.left.id == pname and isinstance(a.right, ast.Constant) and a.right.value == 1
+                passed = isinstance(a, ast.Name) and a.id == pname
+                per_call.append((c, 1 if stepped else 0, stepped or passed))
+            if not entry and not any(st_ for _, st_, _ in per_call):
+                continue  # not a depth counter
+            n_fn += 1
+            col.scope(f.qualname)
+            for c, st_, forwarded in per_call:
+                steps = len(entry) + st_
+                if steps == 1 and forwarded:
+                    col.ok(rule, f"{f.name}: `{pname}` moves by one per level of nesting ({'on entry' if entry else 'in the recursive call'})", A.loc(c))
+                else:
+                    col.fail(rule, f.qualname, f"depth-counter-steps-per-level:{pname}:{steps}", f"{f.name} moves its depth counter `{pname}` {steps} time(s) per level (`{norm(entry[0]) if entry else 'no step on entry'}` and `{norm(c, 50)}`): with a container dimension of 3 or more the shape loses inner dimensions while the extraction still flattens to the full depth, so the trailing elements never get a job", A.loc(c))
+    if n_fn < 2:
+        raise AnalysisError(f"C04: {n_fn} recursive descents with a depth counter found in pydra.engine.state; floor 2 (input_shape, flatten)")
+
+
+def container_ndim_propagation_rule(A: Analysis, col: Collector, rule: str):
+    """a state takes over the complete input and container-dimension tables of every upstream state: the
+    indices it generates for inherited fields are evaluated with these dimensions"""
+    ps = A.func(f"{STATE}.prepare_states")
+    col.scope(ps.qualname)
+    loops = [l for l in walk_own(ps.node) if isinstance(l, ast.For) and any(isinstance(a, ast.Attribute) and a.attr == "other_states" for a in ast.walk(l.iter))]
+    A.anchor("loop over self.other_states in State.prepare_states", loops)
+    n_up = 0
+    for l in loops:
+        svars = {e.id for e in ast.walk(l.target) if isinstance(e, ast.Name)}
+        for c in [c for c in ast.walk(l) if isinstance(c, ast.Call) and isinstance(c.func, ast.Attribute) and c.func.attr == "update" and isinstance(c.func.value, ast.Attribute) and norm(c.func.value.value) == "self"]:
+            n_up += 1
+            a = c.args[0] if c.args else None
+            whole = isinstance(a, ast.Attribute) and isinstance(a.value, ast.Name) and a.value.id in svars
+            if whole:
+                col.ok(rule, f"self.{c.func.value.attr} takes over the upstream state's complete `{a.attr}`", A.loc(c))
+            else:
+                col.fail(rule, ps.qualname, f"upstream-table-partially-merged:{c.func.value.attr}", f"`{norm(c, 70)}` merges only part of the upstream state's table into self.{c.func.value.attr}: entries the upstream state itself inherited (e.g. the container dimension of a field split two nodes upstream) are lost, and the indices generated for them are evaluated with dimension 1", A.loc(c))
+    if n_up < 2:
+        raise AnalysisError(f"C04: {n_up} upstream-table merges in State.prepare_states; floor 2 (inputs, container_ndim)")
+
+
 @prop(
     "C04",
     technique="enumeration-agreement rule (def-use): the per-field index bound and the element extraction must be derived from the same enumeration of the nested container",
     decides="the number of jobs a split field contributes (index bound in State._processing_terms / _single_op_splits) derives from the length of the same flattening that extracts the element for each job (flatten(value, max_depth=container_ndim) in map_splits / State._get_element); a bound derived from prod(input_shape(...)) counts elements correctly only for rectangular nestings because input_shape shortens the shape on its mismatch branch.",
-    not_decided="depth-first order of the flattening, interaction with outer/inner splitters, container_ndim deeper than the nesting.",
+    not_decided="depth-first order of the flattening, interaction with outer/inner splitters, container_ndim deeper than the nesting; decided additionally: the recursive descents (input_shape, flatten) move their depth counter exactly once per level, and a state takes over the complete container-dimension table of its upstream states.",
     level_note="Trusted: def-use analysis (flow-insensitive) inside the three functions.",
 )
 def check_c04(A: Analysis, col: Collector):
+    depth_step_rule(A, col, "C04.depth")
+    container_ndim_propagation_rule(A, col, "C04.propagate")
     sites = []
     for q in (f"{STATE}._processing_terms", f"{STATE}._single_op_splits"):
         fn = A.func(q)
